@@ -109,7 +109,7 @@ impl Prop for C12 {
             1 => Just(Perturb::DefaultWeather),
         ];
         let base_iv = || prop_oneof![6 => Just(None), 2 => (1.0..=120.0f64).prop_map(|x| Some(F(x))), 1 => prop_oneof![Just(Some(F(120.0))), Just(Some(F(1.0))), Just(Some(F(90.0)))]];
-        (gen::site(62.0, 2.0), 0u8..9, any::<bool>(), gen::date(), perturb, 0u8..8, base_iv(), base_iv())
+        let general = (gen::site(62.0, 2.0), 0u8..9, any::<bool>(), gen::date(), perturb, 0u8..8, base_iv(), base_iv())
             .prop_map(|(site, method, default_policy, date, perturb, angle_policy, base_fajr_interval, base_isha_interval)| Case {
                 site,
                 method,
@@ -120,7 +120,27 @@ impl Prop for C12 {
                 base_fajr_interval,
                 base_isha_interval,
             })
-            .boxed()
+            .boxed();
+        // short nights: |lat| 59.5-62 within two weeks of the local summer solstice, with Fajr, Isha and Imsaak intervals
+        // that are all large (together they can exceed the night) - two parameters that are normally varied one at a time
+        let short_night = (59.5..=62.0f64, any::<bool>(), 1600..=2399i32, -14i64..=14, gen::longitude(), 0u8..9, any::<bool>(), 80.0..=120.0f64, 80.0..=120.0f64, prop_oneof![1 => 80.0..=120.0f64, 1 => Just(120.0)])
+            .prop_flat_map(|(lat, south, year, off, lon, method, default_policy, fi, ii, im)| {
+                let lat = if south { -lat } else { lat };
+                let centre = if south { gen::ymd(year, 12, 21) } else { gen::ymd(year, 6, 21) };
+                let date = gen::clamp_date(centre + chrono::Duration::days(off));
+                gen::gmt_for(lon, 2.0).prop_map(move |gmt| Case {
+                    site: Site { lat: F(lat), lon: F(lon), elev: F(0.0), gmt: F(gmt) },
+                    method,
+                    default_policy,
+                    date,
+                    perturb: Perturb::ImsaakInterval(F(im)),
+                    angle_policy: 0,
+                    base_fajr_interval: Some(F(fi)),
+                    base_isha_interval: Some(F(ii)),
+                })
+            })
+            .boxed();
+        prop_oneof![40 => general, 1 => short_night].boxed()
     }
     fn check(&self, c: &Case, st: &mut Stats) -> Result<(), Failure> {
         st.eval();
